@@ -532,7 +532,18 @@ int vnadata_convert(const vnadata_t *vdp_in, vnadata_t *vdp_out,
 	    return -1;
 	}
 	vnadata_set_frequency_vector(vdp_out, vdp_in->vd_frequency_vector);
-	if (!(vdip_in->vdi_flags & VF_PER_F_Z0)) {
+	if (MAX(new_rows, new_columns) >
+		MAX(vdp_in->vd_rows, vdp_in->vd_columns)) {
+	    /*
+	     * A 0x0 matrix to the 1x0 input impedance vector: the
+	     * input has no port to take impedances from; the port
+	     * of the output keeps the default.
+	     */
+	    if ((vdip_in->vdi_flags & VF_PER_F_Z0) &&
+		    _vnadata_convert_to_fz0(VDP_TO_VDIP(vdp_out)) == -1) {
+		return -1;
+	    }
+	} else if (!(vdip_in->vdi_flags & VF_PER_F_Z0)) {
 	    if (vnadata_set_z0_vector(vdp_out, vdip_in->vdi_z0_vector) == -1) {
 		return -1;
 	    }
